@@ -10,6 +10,7 @@ import (
 	_ "verif/h/checks/c05"
 	_ "verif/h/checks/c06"
 	_ "verif/h/checks/c07"
+	_ "verif/h/checks/c08"
 	_ "verif/h/checks/c09"
 	_ "verif/h/checks/c10"
 	_ "verif/h/checks/c11"
